@@ -1,3 +1,4 @@
 SPECIFICATION Spec
+CONSTANT Key = {"k1", "k2"}
 INVARIANTS KeysIndependent Emit
 CHECK_DEADLOCK FALSE
